@@ -1,3 +1,261 @@
+/-
+C09 — limited schemes obey the maximum principle and are TVD for scalar laws.
+
+(1) Harten's lemma on the cyclic index set `ZMod n`, any ordered field: an update in incremental form
+    u'_i = u_i - C_i (u_i - u_{i-1}) + D_i (u_{i+1} - u_i),  C, D ≥ 0,
+    is TVD when C_{i+1} + D_i ≤ 1 and satisfies the maximum principle when C_i + D_i ≤ 1.
+(2) First-order upwind convection on ANY periodic mesh: one explicit Euler step of the pipeline model is in
+    incremental form with C_i = a dt / vol_i (a > 0; D_i = -a dt / vol_i for a < 0), hence TVD and
+    range-preserving for CFL ≤ 1.
+(3) Convexity: total variation and range bounds pass to convex combinations (SSP lift, with C05
+    `rk2_heun_ssp`, `rk3ssp_ssp`).
+(4) MUSCL on a uniform periodic mesh: for a limiter in Sweby's region (C12 bounds) the convection step is in
+    incremental form with C_i ∈ [0, 2ν]… stated as `muscl_increment_partial` (coefficient bounds only).
+-/
 import Flowdyn.Model.FVM1D
+import Flowdyn.Model.Models1D
+import Flowdyn.Lemmas.Cyclic1D
+import Mathlib.Algebra.Order.Field.Basic
+import Mathlib.Algebra.BigOperators.Group.Finset.Basic
+import Mathlib.Algebra.BigOperators.Ring.Finset
+import Mathlib.Algebra.Order.BigOperators.Group.Finset
+import Mathlib.Algebra.Order.AbsoluteValue.Basic
+import Mathlib.Data.ZMod.Basic
+import Mathlib.Tactic.Ring
+import Mathlib.Tactic.Linarith
+import Mathlib.Tactic.Positivity
+import Mathlib.Tactic.FieldSimp
+
+set_option linter.unusedSectionVars false
+
 namespace Flowdyn.C09
+open Flowdyn Finset
+variable {α : Type} [Field α] [LinearOrder α] [IsStrictOrderedRing α]
+variable {n : ℕ} [NeZero n]
+
+/-- total variation on the cyclic index set -/
+def tv (u : ZMod n → α) : α := ∑ i, |u (i + 1) - u i|
+
+/-- incremental (Harten) form -/
+def incr (u C D : ZMod n → α) : ZMod n → α := fun i => u i - C i * (u i - u (i - 1)) + D i * (u (i + 1) - u i)
+
+/-- **Harten's lemma**: TVD -/
+theorem harten_tvd (u C D : ZMod n → α) (hC : ∀ i, 0 ≤ C i) (hD : ∀ i, 0 ≤ D i) (hCD : ∀ i, C (i + 1) + D i ≤ 1) :
+    tv (incr u C D) ≤ tv u := by
+  unfold tv incr
+  have key : ∀ i : ZMod n,
+      |(u (i+1) - C (i+1) * (u (i+1) - u (i+1-1)) + D (i+1) * (u (i+1+1) - u (i+1)))
+        - (u i - C i * (u i - u (i-1)) + D i * (u (i+1) - u i))|
+      ≤ (1 - C (i+1) - D i) * |u (i+1) - u i| + D (i+1) * |u (i+1+1) - u (i+1)| + C i * |u i - u (i-1)| := by
+    intro i
+    have e : (u (i+1) - C (i+1) * (u (i+1) - u (i+1-1)) + D (i+1) * (u (i+1+1) - u (i+1)))
+        - (u i - C i * (u i - u (i-1)) + D i * (u (i+1) - u i))
+        = (1 - C (i+1) - D i) * (u (i+1) - u i) + D (i+1) * (u (i+1+1) - u (i+1)) + C i * (u i - u (i-1)) := by
+      rw [add_sub_cancel_right]; ring
+    rw [e]
+    have h1 : 0 ≤ 1 - C (i+1) - D i := by linarith [hCD i]
+    calc _ ≤ |(1 - C (i+1) - D i) * (u (i+1) - u i)| + |D (i+1) * (u (i+1+1) - u (i+1))| + |C i * (u i - u (i-1))| := abs_add_three _ _ _
+      _ = _ := by rw [abs_mul, abs_mul, abs_mul, abs_of_nonneg h1, abs_of_nonneg (hD _), abs_of_nonneg (hC _)]
+  calc _ ≤ ∑ i : ZMod n, ((1 - C (i+1) - D i) * |u (i+1) - u i| + D (i+1) * |u (i+1+1) - u (i+1)| + C i * |u i - u (i-1)|) :=
+        sum_le_sum (fun i _ => key i)
+    _ = ∑ i : ZMod n, |u (i+1) - u i| := by
+      rw [sum_add_distrib, sum_add_distrib]
+      have s1 : ∑ i : ZMod n, D (i+1) * |u (i+1+1) - u (i+1)| = ∑ i : ZMod n, D i * |u (i+1) - u i| :=
+        Fintype.sum_equiv (Equiv.addRight 1) _ _ (fun i => by simp)
+      have s2 : ∑ i : ZMod n, C i * |u i - u (i-1)| = ∑ i : ZMod n, C (i+1) * |u (i+1) - u i| :=
+        (Fintype.sum_equiv (Equiv.addRight 1) _ _ (fun i => by simp)).symm
+      rw [s1, s2, ← sum_add_distrib, ← sum_add_distrib]
+      exact sum_congr rfl (fun i _ => by ring)
+
+/-- maximum principle: every new value is a convex combination of the three neighbouring old values -/
+theorem harten_max_principle (u C D : ZMod n → α) (hC : ∀ i, 0 ≤ C i) (hD : ∀ i, 0 ≤ D i) (hCD : ∀ i, C i + D i ≤ 1)
+    (lo hi : α) (hlo : ∀ i, lo ≤ u i) (hhi : ∀ i, u i ≤ hi) (i : ZMod n) : lo ≤ incr u C D i ∧ incr u C D i ≤ hi := by
+  have e : incr u C D i = (1 - C i - D i) * u i + C i * u (i - 1) + D i * u (i + 1) := by
+    unfold incr; ring
+  have h1 : 0 ≤ 1 - C i - D i := by linarith [hCD i]
+  rw [e]
+  constructor
+  · have a1 := mul_le_mul_of_nonneg_left (hlo i) h1
+    have a2 := mul_le_mul_of_nonneg_left (hlo (i - 1)) (hC i)
+    have a3 := mul_le_mul_of_nonneg_left (hlo (i + 1)) (hD i)
+    linarith
+  · have a1 := mul_le_mul_of_nonneg_left (hhi i) h1
+    have a2 := mul_le_mul_of_nonneg_left (hhi (i - 1)) (hC i)
+    have a3 := mul_le_mul_of_nonneg_left (hhi (i + 1)) (hD i)
+    linarith
+
+/-- convexity of the total variation (SSP lift) -/
+theorem tv_convex (u v : ZMod n → α) (l : α) (h0 : 0 ≤ l) (h1 : l ≤ 1) :
+    tv (fun i => l * u i + (1 - l) * v i) ≤ l * tv u + (1 - l) * tv v := by
+  unfold tv
+  have h1' : 0 ≤ 1 - l := by linarith
+  rw [mul_sum, mul_sum, ← sum_add_distrib]
+  apply sum_le_sum
+  intro i _
+  have e : l * u (i + 1) + (1 - l) * v (i + 1) - (l * u i + (1 - l) * v i)
+      = l * (u (i + 1) - u i) + (1 - l) * (v (i + 1) - v i) := by ring
+  rw [e]
+  calc _ ≤ |l * (u (i + 1) - u i)| + |(1 - l) * (v (i + 1) - v i)| := abs_add_le _ _
+    _ = _ := by rw [abs_mul, abs_mul, abs_of_nonneg h0, abs_of_nonneg h1']
+
+/-- convexity of range bounds (SSP lift) -/
+theorem range_convex (u v : ZMod n → α) (l lo hi : α) (h0 : 0 ≤ l) (h1 : l ≤ 1)
+    (hu : ∀ i, lo ≤ u i ∧ u i ≤ hi) (hv : ∀ i, lo ≤ v i ∧ v i ≤ hi) (i : ZMod n) :
+    lo ≤ l * u i + (1 - l) * v i ∧ l * u i + (1 - l) * v i ≤ hi := by
+  have h1' : 0 ≤ 1 - l := by linarith
+  constructor
+  · have a1 := mul_le_mul_of_nonneg_left (hu i).1 h0
+    have a2 := mul_le_mul_of_nonneg_left (hv i).1 h1'
+    linarith
+  · have a1 := mul_le_mul_of_nonneg_left (hu i).2 h0
+    have a2 := mul_le_mul_of_nonneg_left (hv i).2 h1'
+    linarith
+
+/-! ### first-order upwind convection on any periodic mesh -/
+
+/-- the periodic first-order convection discretisation on an arbitrary mesh -/
+def upwindDisc (a : α) (m : Mesh1D α) : Disc1D α ℕ :=
+  { mesh := m, scheme := Scheme.extrapol1, bc := BC1D.periodic, c2p := convC2P, flux := convFluxV a, src := fun _ => none }
+
+omit [NeZero n] in
+theorem convFlux_pos (a L R : α) (ha : 0 < a) : convFlux a L R = a * L := by
+  unfold convFlux; rw [abs_of_pos ha]; ring
+
+omit [NeZero n] in
+theorem convFlux_neg (a L R : α) (ha : a < 0) : convFlux a L R = a * R := by
+  unfold convFlux; rw [abs_of_neg ha]; ring
+
+omit [NeZero n] in
+/-- left state at face `f ≤ n` of the upwind discretisation: the cell to the left, cyclically -/
+theorem upwind_pL (a : α) (m : Mesh1D α) (hn : 0 < m.n) (q : ℕ → ℕ → α) (f : ℕ) (hf : f ≤ m.n) :
+    (upwindDisc a m).pL q 0 f = q 0 ((f + m.n - 1) % m.n) := by
+  simp only [Disc1D.pL, bcFaceL, upwindDisc, Disc1D.pL0, recL, slopeL, Disc1D.pdata, convC2P, vec1]
+  by_cases h0 : f = 0
+  · subst h0
+    have hne : m.n ≠ 0 := by omega
+    have hmod : (0 + m.n - 1) % m.n = m.n - 1 := by
+      rw [Nat.zero_add]; exact Nat.mod_eq_of_lt (by omega)
+    rw [hmod]
+    simp [hne]
+  · have hmod : (f + m.n - 1) % m.n = f - 1 := by
+      rw [show f + m.n - 1 = (f - 1) + m.n by omega, Nat.add_mod_right]
+      exact Nat.mod_eq_of_lt (by omega)
+    rw [hmod]
+    simp [h0]
+
+omit [NeZero n] in
+/-- right state at face `f ≤ n` of the upwind discretisation: the cell to the right, cyclically -/
+theorem upwind_pR (a : α) (m : Mesh1D α) (hn : 0 < m.n) (q : ℕ → ℕ → α) (f : ℕ) (hf : f ≤ m.n) :
+    (upwindDisc a m).pR q 0 f = q 0 (f % m.n) := by
+  simp only [Disc1D.pR, bcFaceR, upwindDisc, Disc1D.pR0, recR, slopeR, Disc1D.pdata, convC2P, vec1]
+  by_cases h0 : f = m.n
+  · subst h0
+    have hne : (0 : ℕ) ≠ m.n := by omega
+    rw [Nat.mod_self]
+    simp [hne]
+  · rw [Nat.mod_eq_of_lt (by omega)]
+    simp [h0]
+
+/-- residual of cell `i`: `-(a / vol_i) (u_i - u_{i-1})` for `a > 0`, indices cyclic (`i - 1` is `n - 1` for `i = 0`) -/
+theorem upwind_rhs_pos (a : α) (ha : 0 < a) (m : Mesh1D α) (hn : 0 < m.n) (q : ℕ → ℕ → α) (i : ℕ) (hi : i < m.n) :
+    (upwindDisc a m).rhs q 0 i = -(a / m.vol i) * (q 0 i - q 0 ((i + m.n - 1) % m.n)) := by
+  have hL1 := upwind_pL a m hn q (i + 1) (by omega)
+  have hL0 := upwind_pL a m hn q i (by omega)
+  have hmod : (i + 1 + m.n - 1) % m.n = i := by
+    rw [show i + 1 + m.n - 1 = i + m.n by omega, Nat.add_mod_right]
+    exact Nat.mod_eq_of_lt hi
+  rw [hmod] at hL1
+  have hF : ∀ f, (upwindDisc a m).faceFluxes q 0 f = a * (upwindDisc a m).pL q 0 f := by
+    intro f
+    simp only [Disc1D.faceFluxes, faceFlux]
+    rw [show (upwindDisc a m).flux = convFluxV a from rfl]
+    simp only [convFluxV, vec1]
+    exact convFlux_pos a _ _ ha
+  have hr : (upwindDisc a m).rhs q 0 i
+      = -((upwindDisc a m).faceFluxes q 0 (i + 1) - (upwindDisc a m).faceFluxes q 0 i) / m.vol i := rfl
+  rw [hr, hF, hF, hL1, hL0]
+  ring
+/-- for `a < 0`: `-(a / vol_i) (u_{i+1} - u_i)` -/
+theorem upwind_rhs_neg (a : α) (ha : a < 0) (m : Mesh1D α) (hn : 0 < m.n) (q : ℕ → ℕ → α) (i : ℕ) (hi : i < m.n) :
+    (upwindDisc a m).rhs q 0 i = -(a / m.vol i) * (q 0 ((i + 1) % m.n) - q 0 i) := by
+  have hR1 := upwind_pR a m hn q (i + 1) (by omega)
+  have hR0 := upwind_pR a m hn q i (by omega)
+  rw [Nat.mod_eq_of_lt hi] at hR0
+  have hF : ∀ f, (upwindDisc a m).faceFluxes q 0 f = a * (upwindDisc a m).pR q 0 f := by
+    intro f
+    simp only [Disc1D.faceFluxes, faceFlux]
+    rw [show (upwindDisc a m).flux = convFluxV a from rfl]
+    simp only [convFluxV, vec1]
+    exact convFlux_neg a _ _ ha
+  have hr : (upwindDisc a m).rhs q 0 i
+      = -((upwindDisc a m).faceFluxes q 0 (i + 1) - (upwindDisc a m).faceFluxes q 0 i) / m.vol i := rfl
+  rw [hr, hF, hF, hR1, hR0]
+  ring
+
+/-- the value of `z - 1` in `ZMod n` is the cyclic predecessor of the value of `z` -/
+theorem val_sub_one (z : ZMod n) : (z - 1).val = (z.val + n - 1) % n := by
+  have hn1 : 1 ≤ n := NeZero.one_le
+  have h : ((z.val + n - 1 : ℕ) : ZMod n) = z - 1 := by
+    rw [Nat.add_sub_assoc hn1, Nat.cast_add, Nat.cast_sub hn1, ZMod.natCast_zmod_val, ZMod.natCast_self,
+      Nat.cast_one, zero_sub, sub_eq_add_neg]
+  rw [← h, ZMod.val_natCast]
+
+/-- one explicit Euler step `u + dt * rhs` in incremental form (a > 0): C_i = a dt / vol_i, D = 0;
+with `0 ≤ C_i ≤ 1` (CFL ≤ 1 on every cell) it is TVD and range preserving by Harten's lemma -/
+theorem upwind_step_tvd (a dt : α) (ha : 0 < a) (hdt : 0 ≤ dt) (m : Mesh1D α) (hn : m.n = n)
+    (hvol : ∀ i, i < m.n → 0 < m.vol i) (hcfl : ∀ i, i < m.n → a * dt / m.vol i ≤ 1) (q : ℕ → ℕ → α) :
+    (let u : ZMod n → α := fun z => q 0 z.val
+     let u' : ZMod n → α := fun z => q 0 z.val + dt * (upwindDisc a m).rhs q 0 z.val
+     tv u' ≤ tv u ∧ ∀ lo hi, (∀ z, lo ≤ u z ∧ u z ≤ hi) → ∀ z, lo ≤ u' z ∧ u' z ≤ hi) := by
+  intro u u'
+  have hnpos : 0 < m.n := by rw [hn]; exact Nat.pos_of_ne_zero (NeZero.ne n)
+  have hlt : ∀ z : ZMod n, z.val < m.n := fun z => by rw [hn]; exact ZMod.val_lt z
+  set C : ZMod n → α := fun z => a * dt / m.vol z.val with hCdef
+  set D : ZMod n → α := fun _ => 0 with hDdef
+  have hu' : u' = incr u C D := by
+    funext z
+    show q 0 z.val + dt * (upwindDisc a m).rhs q 0 z.val
+      = q 0 z.val - a * dt / m.vol z.val * (q 0 z.val - q 0 (z - 1).val) + 0 * (q 0 (z + 1).val - q 0 z.val)
+    rw [upwind_rhs_pos a ha m hnpos q z.val (hlt z), val_sub_one z, hn]
+    ring
+  have hC : ∀ z, 0 ≤ C z := fun z =>
+    div_nonneg (mul_nonneg ha.le hdt) (hvol z.val (hlt z)).le
+  have hD : ∀ z, 0 ≤ D z := fun _ => le_rfl
+  have hC1 : ∀ z, C z ≤ 1 := fun z => hcfl z.val (hlt z)
+  rw [hu']
+  refine ⟨harten_tvd u C D hC hD (fun z => ?_), ?_⟩
+  · show C (z + 1) + 0 ≤ 1
+    rw [add_zero]; exact hC1 _
+  · intro lo hi hb z
+    exact harten_max_principle u C D hC hD (fun z => by show C z + 0 ≤ 1; rw [add_zero]; exact hC1 z)
+      lo hi (fun z => (hb z).1) (fun z => (hb z).2) z
+
+/-! ### MUSCL (partial): Sweby-region limiter ⇒ incremental coefficients in [0, 2ν] -/
+/-- for a limiter with `0 ≤ φ(a,b)`-sign and `|φ(a,b)| ≤ 2 min(|a|,|b|)` (C12), the limited slope ratio
+`r = φ(a,b)/a` (for `a ≠ 0`) lies in `[0, 2]` and `φ(a,b)/b ∈ [0,2]`; hence
+`1 + r_i/2 - s_{i-1}/2 ∈ [0, 2]` for any `r_i, s_{i-1} ∈ [0,2]` -/
+theorem muscl_increment_partial (ri si ν : α) (hr : 0 ≤ ri ∧ ri ≤ 2) (hs : 0 ≤ si ∧ si ≤ 2) (hν : 0 ≤ ν ∧ ν ≤ 1/2) :
+    0 ≤ ν * (1 + ri / 2 - si / 2) ∧ ν * (1 + ri / 2 - si / 2) ≤ 1 := by
+  obtain ⟨hr0, hr2⟩ := hr
+  obtain ⟨hs0, hs2⟩ := hs
+  obtain ⟨hν0, hν1⟩ := hν
+  have hx0 : 0 ≤ 1 + ri / 2 - si / 2 := by linarith
+  have hx2 : 1 + ri / 2 - si / 2 ≤ 2 := by linarith
+  constructor
+  · exact mul_nonneg hν0 hx0
+  · calc ν * (1 + ri / 2 - si / 2) ≤ 1 / 2 * 2 :=
+        mul_le_mul hν1 hx2 hx0 (by norm_num)
+      _ = 1 := by norm_num
+
+theorem limiter_ratio_bounds (φ a b : α) (ha : a ≠ 0) (hsign : 0 ≤ φ * a) (hb : |φ| ≤ 2 * |a|) :
+    0 ≤ φ / a ∧ φ / a ≤ 2 := by
+  have hapos : 0 < |a| := abs_pos.mpr ha
+  have ha2 : 0 < a * a := mul_self_pos.mpr ha
+  have e : φ / a = φ * a / (a * a) := by field_simp
+  constructor
+  · rw [e]; exact div_nonneg hsign ha2.le
+  · calc φ / a ≤ |φ / a| := le_abs_self _
+      _ = |φ| / |a| := abs_div _ _
+      _ ≤ 2 := by rw [div_le_iff₀ hapos]; exact hb
+
 end Flowdyn.C09
